@@ -365,6 +365,9 @@ func (c *Ctx) isCodecFunc(fn *ssa.Function, isRead bool) bool {
 	if !hasStream {
 		return false
 	}
+	if _, _, ok := c.packLeaves(fn, isRead); ok {
+		return true
+	}
 	want := "encoding/binary.Write"
 	if isRead {
 		want = "encoding/binary.Read"
@@ -486,8 +489,29 @@ func (c *Ctx) flatten(t []codecEntry, isRead bool, depth int) []leaf {
 		case strings.HasPrefix(e.what, "call:"):
 			callee := ir.Callee(e.call)
 			if callee != nil && depth < 5 {
-				sub := c.flatten(c.codecTable(callee, isRead), isRead, depth+1)
-				out = append(out, sub...)
+				sub := c.leavesOf(callee, isRead, depth+1)
+				// a struct handed over as a pointer to a local whose variable-length field is
+				// provably empty at the call contributes nothing for that field
+				empty := map[string]bool{}
+				if !isRead {
+					for _, a := range e.call.Call.Args {
+						if al, ok := ir.RootOf(a).(*ssa.Alloc); ok && a == ssa.Value(al) {
+							if st, ok := al.Type().Underlying().(*types.Pointer).Elem().Underlying().(*types.Struct); ok {
+								for k := 0; k < st.NumFields(); k++ {
+									if _, isSlice := st.Field(k).Type().Underlying().(*types.Slice); isSlice && localFieldEmpty(al, k, e.call, 0) {
+										empty[st.Field(k).Name()] = true
+									}
+								}
+							}
+						}
+					}
+				}
+				for _, l := range sub {
+					if l.width < 0 && empty[lastComponent(l.id)] {
+						continue
+					}
+					out = append(out, l)
+				}
 			}
 		case e.width >= 0:
 			if _, isStruct := e.typ.Underlying().(*types.Struct); isStruct {
@@ -536,7 +560,7 @@ func sameLeaves(r, w []leaf, skip map[string]bool) (bool, string) {
 			}
 			continue
 		}
-		if !sameWireName(a, b) || a.width != b.width || a.order != b.order {
+		if !sameWireName(a, b) || a.width != b.width || a.order != b.order && a.width != 1 && a.order != "-" && b.order != "-" {
 			return false, fmt.Sprintf("position %d: reader consumes %s, writer emits %s", k+1, a, b)
 		}
 	}
@@ -691,6 +715,17 @@ func (c *Ctx) codecOpaque(fn *ssa.Function, depth int) string {
 	}
 	why := ""
 	for _, f := range withAnon(fn) {
+		if c.usesPackIdiom(f) {
+			// modelled; only its callees can still be opaque
+			instrsOf(f, func(i ssa.Instruction) {
+				if call, ok := i.(*ssa.Call); ok && why == "" {
+					if callee := ir.Callee(call); callee != nil && c.P.InLib(callee) && callee != fn && hasStreamParam(callee) && c.codecWrapper(callee) == nil {
+						why = c.codecOpaque(callee, depth+1)
+					}
+				}
+			})
+			continue
+		}
 		instrsOf(f, func(i ssa.Instruction) {
 			call, ok := i.(*ssa.Call)
 			if !ok || why != "" {
@@ -752,9 +787,57 @@ func lastComponent(id string) string {
 // Go structs on the two sides); a datum read into / written from a plain local
 // has no name and matches by width and order alone.
 func sameWireName(a, b leaf) bool {
-	local := func(l leaf) bool { return l.src != nil && l.src.field == nil && !strings.Contains(l.id, ".") }
+	local := func(l leaf) bool {
+		return l.id == "(skipped)" || l.id == "value" || l.id == "bytes" || l.src != nil && l.src.field == nil && !strings.Contains(l.id, ".")
+	}
 	if local(a) || local(b) {
 		return true
 	}
 	return lastComponent(a.id) == lastComponent(b.id)
+}
+
+// localFieldEmpty: field idx of the local struct al is nil/empty whenever
+// instruction at executes (no store of a possibly non-empty value reaches it).
+func localFieldEmpty(al *ssa.Alloc, idx int, at ssa.Instruction, depth int) bool {
+	if depth > 3 {
+		return false
+	}
+	cleared := false
+	wholeDirty := false
+	for _, r := range *al.Referrers() {
+		switch x := r.(type) {
+		case *ssa.Store:
+			if x.Addr != ssa.Value(al) {
+				continue
+			}
+			// whole-struct assignment: from another local with an empty field, or dirty
+			if ld, ok := x.Val.(*ssa.UnOp); ok && ld.Op == token.MUL {
+				if src, ok := ld.X.(*ssa.Alloc); ok && localFieldEmpty(src, idx, ld, depth+1) {
+					continue
+				}
+			}
+			wholeDirty = true
+		case *ssa.FieldAddr:
+			if x.Field != idx {
+				continue
+			}
+			for _, rr := range *x.Referrers() {
+				st, ok := rr.(*ssa.Store)
+				if !ok || st.Addr != ssa.Value(x) {
+					// address escapes (&hdr.Certificate passed somewhere)
+					if _, isLoad := rr.(*ssa.UnOp); !isLoad {
+						return false
+					}
+					continue
+				}
+				if !isEmptySlice(st.Val) {
+					return false
+				}
+				if st.Block() == at.Block() && precedes(st, at) || st.Block() != at.Block() && st.Block().Dominates(at.Block()) {
+					cleared = true
+				}
+			}
+		}
+	}
+	return !wholeDirty || cleared
 }
